@@ -577,6 +577,16 @@ function w{i}(s) {{ switch (s) {{ case 0: try {{ var v{i} = {x}; break; }} catch
       for i in 0..k {
         let Ok(j) = serde_json::from_str::<Value>(lines[(start + i) % lines.len()]) else { continue };
         let Some(src) = j["src"].as_str() else { continue };
+        // a class static block is analysed, and specified, as a scope of its own (repair a361149): an exception that
+        // leaves it is not seen as leaving the class definition.  The analyzer is conservative there (what may throw
+        // inside the block counts for the enclosing try), the reference is not faithful there: such programs take part in
+        // the correspondence and the flagged-vs-reachable oracle, not in this one.
+        if src.contains("static {") {
+          out.count("recorded-execution-skipped:static-block");
+          run_one(&mut out, src, "js", &["recorded-execution"], n);
+          n += 1;
+          continue;
+        }
         run_one_exec(&mut out, src, "js", &["recorded-execution"], n, Some(&j["executed"]));
         out.add("recorded-executed-statements", j["executed"].as_array().map(|a| a.len()).unwrap_or(0) as u64);
         n += 1;
